@@ -29,13 +29,14 @@ enum YieldKind
     YK_SINK,       // Sink::sink
     YK_CALLABLE,   // a lazily evaluated callable runs
     YK_BLOCKED,    // waiting for a mutex
+    YK_ALLOC,      // operator new (a thread can be preempted anywhere; this is a cheap extra seam)
     YK_DONE
 };
 
 constexpr int MAXT = 4;
 constexpr uint64_t STEP_BUDGET = 2000000; // far above any legitimate run (< 50k); a livelock, not a long record
 
-extern Counter f_preempt, f_stall, p_contended, f_clockjump;
+extern Counter f_preempt, f_stall, p_contended, f_clockjump, f_lock_timeout;
 
 struct Scheduler
 {
@@ -77,9 +78,15 @@ struct Scheduler
     // mutexes, numbered by first use
     std::vector<const void*> mtx_addr;
     std::vector<int> mtx_owner;
+    std::vector<int> mtx_depth;   // recursion depth (recursive mutexes)
+    std::vector<int> rw_readers;  // reader count when the object is used as a rwlock
+    std::vector<std::vector<int>> rw_reader_ids;
     // simulated clock
     int64_t now_ns = 0;
     bool unlock_not_owner = false;
+    bool alloc_yield = false;      // run knob: allocations are yield points
+    unsigned timeout_num = 0;      // run knob: a blocked timed lock gives up with probability n/8 per wait
+    uint64_t timeout_state = 1;
 
     static Scheduler& get()
     {
@@ -140,6 +147,9 @@ struct Scheduler
         NoFault nf;
         mtx_addr.push_back(m);
         mtx_owner.push_back(-1);
+        mtx_depth.push_back(0);
+        rw_readers.push_back(0);
+        rw_reader_ids.emplace_back();
         return static_cast<int>(mtx_addr.size() - 1);
     }
 
@@ -166,8 +176,21 @@ struct Scheduler
                 else
                     pick = runnable[static_cast<size_t>(c) % static_cast<size_t>(n)];
             }
+            else if (me_ok)
+                pick = me;
             else
-                pick = me_ok ? me : runnable[0];
+            {
+                // default policy when the current thread cannot continue: the next runnable thread
+                // after it in cyclic order (always taking the lowest would let two spinning threads
+                // hand the baton to each other for ever)
+                pick = runnable[0];
+                for (int k = 0; k < n; k++)
+                    if (runnable[k] > me)
+                    {
+                        pick = runnable[k];
+                        break;
+                    }
+            }
         }
         else if (n == 1)
         {
@@ -198,6 +221,7 @@ struct Scheduler
     // the baton holder schedules the next thread and parks itself (unless it continues)
     void hand_off(int me, bool finished)
     {
+        NoFault nf; // the scheduler's own allocations are neither fault sites nor yield points
         if (++steps > STEP_BUDGET)
             die("STEPBUDGET: scheduler step budget exhausted");
         int next = decide(me);
@@ -237,13 +261,31 @@ struct Scheduler
         int me = self_id();
         if (!active || me < 0 || me != current)
             return;
+        NoFault nf; // the scheduler's own allocations are neither fault sites nor yield points
         trace.add((static_cast<uint64_t>(kind) << 8) | static_cast<uint64_t>(me));
         now_ns += 1 + static_cast<int64_t>(steps % 7);
         hand_off(me, false);
     }
 
     // ---- mutex model
-    int lock(const void* m)
+    void block_on(int me, int id)
+    {
+        t[me].st = S_BLOCKED;
+        t[me].blocked_on = id;
+        trace.add((static_cast<uint64_t>(YK_BLOCKED) << 8) | static_cast<uint64_t>(me));
+        hand_off(me, false);
+    }
+    void wake_waiters(int id)
+    {
+        for (int i = 0; i < nthreads; i++)
+            if (t[i].st == S_BLOCKED && t[i].blocked_on == id)
+            {
+                t[i].st = S_RUNNABLE;
+                t[i].blocked_on = -1;
+            }
+    }
+    // `recursive`: the mutex was created with PTHREAD_MUTEX_RECURSIVE (std::recursive_mutex)
+    int lock(const void* m, bool recursive = false)
     {
         int me = self_id();
         int id = mutex_id(m);
@@ -252,26 +294,76 @@ struct Scheduler
         while (mtx_owner[static_cast<size_t>(id)] != -1)
         {
             if (mtx_owner[static_cast<size_t>(id)] == me)
+            {
+                if (recursive)
+                {
+                    ++mtx_depth[static_cast<size_t>(id)];
+                    return 0;
+                }
                 die("DEADLOCK: relock of a non-recursive mutex by its owner");
+            }
             if (!contended)
                 p_contended++;
             contended = true;
-            t[me].st = S_BLOCKED;
-            t[me].blocked_on = id;
-            trace.add((static_cast<uint64_t>(YK_BLOCKED) << 8) | static_cast<uint64_t>(me));
-            hand_off(me, false);
+            block_on(me, id);
         }
         mtx_owner[static_cast<size_t>(id)] = me;
+        mtx_depth[static_cast<size_t>(id)] = 1;
         return 0;
     }
-    int trylock(const void* m)
+    // pthread_mutex_timedlock / clocklock: like lock(), but a wait may end with ETIMEDOUT - the
+    // holder was stalled for longer than the caller was willing to wait (fault lock.timeout)
+    int timedlock(const void* m, bool recursive)
+    {
+        int me = self_id();
+        int id = mutex_id(m);
+        yield(YK_LOCK);
+        while (mtx_owner[static_cast<size_t>(id)] != -1)
+        {
+            if (mtx_owner[static_cast<size_t>(id)] == me)
+            {
+                if (recursive)
+                {
+                    ++mtx_depth[static_cast<size_t>(id)];
+                    return 0;
+                }
+                die("DEADLOCK: relock of a non-recursive mutex by its owner");
+            }
+            p_contended++;
+            if (timeout_num == 0)
+            {
+                block_on(me, id); // no timeouts in this run: an ordinary wait
+                continue;
+            }
+            // the waiter stays schedulable: each time it gets to run while the lock is still held,
+            // its patience may be over
+            timeout_state = splitmix64(timeout_state);
+            if (timeout_state % 8 < timeout_num)
+            {
+                f_lock_timeout++;
+                return 110; // ETIMEDOUT
+            }
+            t[me].prio -= 1; // PCT: do not starve the holder
+            yield(YK_LOCK);
+        }
+        mtx_owner[static_cast<size_t>(id)] = me;
+        mtx_depth[static_cast<size_t>(id)] = 1;
+        return 0;
+    }
+    int trylock(const void* m, bool recursive = false)
     {
         int me = self_id();
         int id = mutex_id(m);
         yield(YK_TRYLOCK);
+        if (mtx_owner[static_cast<size_t>(id)] == me && recursive)
+        {
+            ++mtx_depth[static_cast<size_t>(id)];
+            return 0;
+        }
         if (mtx_owner[static_cast<size_t>(id)] != -1)
             return 16; // EBUSY
         mtx_owner[static_cast<size_t>(id)] = me;
+        mtx_depth[static_cast<size_t>(id)] = 1;
         return 0;
     }
     int unlock(const void* m)
@@ -280,15 +372,102 @@ struct Scheduler
         int id = mutex_id(m);
         if (mtx_owner[static_cast<size_t>(id)] != me)
             unlock_not_owner = true;
+        else if (--mtx_depth[static_cast<size_t>(id)] > 0)
+            return 0; // still held recursively
         mtx_owner[static_cast<size_t>(id)] = -1;
-        for (int i = 0; i < nthreads; i++)
-            if (t[i].st == S_BLOCKED && t[i].blocked_on == id)
-            {
-                t[i].st = S_RUNNABLE;
-                t[i].blocked_on = -1;
-            }
+        mtx_depth[static_cast<size_t>(id)] = 0;
+        wake_waiters(id);
         yield(YK_UNLOCK);
         return 0;
+    }
+    // ---- reader/writer lock model (pthread_rwlock_*, std::shared_mutex)
+    int rdlock(const void* m, bool try_only)
+    {
+        int me = self_id();
+        int id = mutex_id(m);
+        yield(try_only ? YK_TRYLOCK : YK_LOCK);
+        while (mtx_owner[static_cast<size_t>(id)] != -1)
+        {
+            if (try_only)
+                return 16;
+            if (mtx_owner[static_cast<size_t>(id)] == me)
+                die("DEADLOCK: read lock requested by the thread holding the write lock");
+            p_contended++;
+            block_on(me, id);
+        }
+        ++rw_readers[static_cast<size_t>(id)];
+        NoFault nf;
+        rw_reader_ids[static_cast<size_t>(id)].push_back(me);
+        return 0;
+    }
+    int wrlock(const void* m, bool try_only)
+    {
+        int me = self_id();
+        int id = mutex_id(m);
+        yield(try_only ? YK_TRYLOCK : YK_LOCK);
+        while (mtx_owner[static_cast<size_t>(id)] != -1 || rw_readers[static_cast<size_t>(id)] > 0)
+        {
+            if (try_only)
+                return 16;
+            auto& r = rw_reader_ids[static_cast<size_t>(id)];
+            if (mtx_owner[static_cast<size_t>(id)] == me || std::find(r.begin(), r.end(), me) != r.end())
+                die("DEADLOCK: write lock requested by a thread that already holds this lock");
+            p_contended++;
+            block_on(me, id);
+        }
+        mtx_owner[static_cast<size_t>(id)] = me;
+        mtx_depth[static_cast<size_t>(id)] = 1;
+        return 0;
+    }
+    int rwunlock(const void* m)
+    {
+        int me = self_id();
+        int id = mutex_id(m);
+        auto& r = rw_reader_ids[static_cast<size_t>(id)];
+        auto it = std::find(r.begin(), r.end(), me);
+        if (mtx_owner[static_cast<size_t>(id)] == me)
+        {
+            mtx_owner[static_cast<size_t>(id)] = -1;
+            mtx_depth[static_cast<size_t>(id)] = 0;
+        }
+        else if (it != r.end())
+        {
+            r.erase(it);
+            --rw_readers[static_cast<size_t>(id)];
+        }
+        else
+            unlock_not_owner = true;
+        wake_waiters(id);
+        yield(YK_UNLOCK);
+        return 0;
+    }
+    // std::this_thread::yield() inside a spin loop: somebody else must get to run
+    void spin_yield()
+    {
+        NoFault nf;
+        int me = self_id();
+        trace.add((static_cast<uint64_t>(YK_STEP) << 8) | 0x80u | static_cast<uint64_t>(me));
+        bool other = false;
+        for (int i = 0; i < nthreads; i++)
+            if (i != me && t[i].st == S_RUNNABLE)
+                other = true;
+        if (!other)
+            return;
+        t[me].prio = -static_cast<int>(steps) - 1; // PCT: the spinner drops below everybody
+        t[me].st = S_BLOCKED;                        // not eligible for this one decision
+        t[me].blocked_on = -2;
+        ++steps;
+        int next = decide(me);
+        t[me].st = S_RUNNABLE;
+        t[me].blocked_on = -1;
+        if (next < 0 || next == me)
+            return;
+        trace.add(static_cast<uint64_t>(next));
+        t[next].last_run_step = steps;
+        ++switches;
+        current = next;
+        sem_post(&t[next].go);
+        sem_wait(&t[me].go);
     }
     bool in_sim() const
     {
@@ -313,6 +492,9 @@ struct Scheduler
         trace = Fnv();
         mtx_addr.clear();
         mtx_owner.clear();
+        mtx_depth.clear();
+        rw_readers.clear();
+        rw_reader_ids.clear();
         now_ns = 1000000000;
         unlock_not_owner = false;
         for (int i = 0; i < MAXT; i++)
@@ -344,6 +526,9 @@ struct Scheduler
     {
         for (int o : mtx_owner)
             if (o != -1)
+                return true;
+        for (int r : rw_readers)
+            if (r > 0)
                 return true;
         return false;
     }
@@ -541,7 +726,15 @@ extern "C"
     int __real_pthread_mutex_lock(pthread_mutex_t*);
     int __real_pthread_mutex_unlock(pthread_mutex_t*);
     int __real_pthread_mutex_trylock(pthread_mutex_t*);
-    int __wrap_pthread_mutex_lock(pthread_mutex_t* m);
-    int __wrap_pthread_mutex_unlock(pthread_mutex_t* m);
-    int __wrap_pthread_mutex_trylock(pthread_mutex_t* m);
+    int __real_pthread_mutex_timedlock(pthread_mutex_t*, const struct timespec*);
+    int __real_pthread_mutex_clocklock(pthread_mutex_t*, clockid_t, const struct timespec*);
+    int __real_pthread_rwlock_rdlock(pthread_rwlock_t*);
+    int __real_pthread_rwlock_wrlock(pthread_rwlock_t*);
+    int __real_pthread_rwlock_tryrdlock(pthread_rwlock_t*);
+    int __real_pthread_rwlock_trywrlock(pthread_rwlock_t*);
+    int __real_pthread_rwlock_unlock(pthread_rwlock_t*);
+    int __real_pthread_spin_lock(pthread_spinlock_t*);
+    int __real_pthread_spin_trylock(pthread_spinlock_t*);
+    int __real_pthread_spin_unlock(pthread_spinlock_t*);
+    int __real_sched_yield(void);
 }
